@@ -1,16 +1,87 @@
 from vlib.props import prop
 
+# counters observed per quick run (5300 cases) are about twice the minima below
+_min_obs_quick = {
+    # (1) conversions
+    "fan_entries_compared": 12000000, "fan_entries_without_bin": 250000, "roundtrips": 3500, "roundtrip_bins_compared": 4000000,
+    "gap_entries_checked": 2000000, "det2d_entries_compared": 200000, "det2d_roundtrips": 900,
+    # (2) apply / un-apply
+    "apply_checks_efficiencies": 4500, "apply_checks_geo": 3000, "apply_checks_block": 2400, "apply_entries_compared": 40000000,
+    "apply_checks_efficiencies_2d": 900, "apply_checks_geo_2d": 700, "apply_checks_block_2d": 900,
+    # (3) fixed points (exact = bit-exact dyadic pass, generic = random factors with computed band)
+    "fixed_point_checks": 20000,
+    "fixed_point_checks_efficiencies_exact": 4500, "fixed_point_checks_efficiencies_generic": 4500,
+    "fixed_point_checks_geo_exact": 3000, "fixed_point_checks_geo_generic": 3000,
+    "fixed_point_checks_block_exact": 2400, "fixed_point_checks_block_generic": 2400,
+    "fixed_point_checks_efficiencies_2d_exact": 900, "fixed_point_checks_geo_2d_exact": 700, "fixed_point_checks_block_2d_exact": 900,
+    "geo_classes_estimated": 500000,
+    # (4) KL descent
+    "kl_steps_checked": 15000, "kl_steps_checked_stir_value": 5000, "kl_steps_checked_driver": 100,
+    # (6) driver
+    "driver_runs": 500, "driver_kl_reports": 1500, "driver_outer_iterations_completed": 500,
+    # configuration classes
+    "cfg_no_gaps": 1800, "cfg_gaps_transaxial": 800, "cfg_gaps_transaxial_and_axial": 800, "scanners_with_gaps": 1600,
+    "cfg_max_delta_0": 600, "cfg_max_delta_partial": 700, "cfg_max_delta_full": 2000, "cfg_full_fan": 400,
+    "cfg_geo_unit_is_bucket": 1000,
+}
+
 prop("C20",
      harness="c20_mlnorm",
      runs={
          "quick": [dict(flavour="asan", cases=300), dict(flavour="rel", cases=5000)],
          "thorough": [dict(flavour="asan", cases=600), dict(flavour="rel", cases=12000)],
      },
-     min_nontrivial={"quick": 100, "thorough": 2000},
-     min_obs={"quick": {"fan_entries_compared": 1000}, "thorough": {"fan_entries_compared": 1000}},
-     rule="preliminary",
-     technique="runtime monitoring",
-     level_text="preliminary",
-     level_note="preliminary",
-     assumptions=[],
+     min_nontrivial={"quick": 3000, "thorough": 6000},
+     min_obs={"quick": _min_obs_quick,
+              "thorough": {k: 2 * v for k, v in _min_obs_quick.items()}},
+     rule=("case = one generated cylindrical scanner (8..40/72 detectors per ring, 1..7/12 rings, 1..6 physical transaxial x 1..3 "
+           "axial crystals per block, 1..3 x 1..2 blocks per bucket, even number of transaxial blocks; 45% without virtual crystals, "
+           "25% with one virtual transaxial crystal per block (scanner type Siemens_mMR), 30% with one virtual transaxial and one "
+           "virtual axial crystal per block (type E1080)) x span-1 non-arc-corrected sampling (max ring difference 0 / partial / "
+           "full, number of tangential positions = fan size from 1 to all other detectors, odd and even) x symmetry unit block or "
+           "bucket.  Per case: (1) make_fan_data_remove_gaps on data with a unique value per bin, every entry against the bin of "
+           "get_bin_for_det_pos_pair and every bin against its entry, set_fan_data_add_gaps round trip with a random gap value; "
+           "(2) apply_efficiencies / apply_geo_norm / apply_block_norm and their inverse on every entry; (3) fixed points of "
+           "iterate_efficiencies / iterate_geo_norm / iterate_block_norm on exact model data (bit-exact dyadic pass + generic pass); "
+           "(4) 2..6 iterate_efficiencies sweeps on Poisson data (0.05..20 counts per LOR, true or mis-specified geo/block model, "
+           "constant or random start) with the float64 KL distance over all LORs evaluated before and after every sweep; (5) 60% of "
+           "the scanners without gaps: the same for the 2-D DetPairData functions on one sinogram (pair); (6) 35% of the cases that "
+           "satisfy the driver's preconditions: ML_estimate_component_based_normalisation (2..4 efficiency sweeps, 1..2 outer "
+           "iterations, geo / block / KL switches) in the run's temporary directory.  non-trivial = >= 2 physical rings, >= 8 "
+           "physical detectors per ring and at least one fan entry compared; distinct = distinct case descriptor"),
+     technique=("runtime monitoring: the real conversion / apply / iterate functions of stir/ML_norm.h and the estimation driver are "
+                "executed on generated scanners and data; oracles are the geometry's own detector-pair map (inverse relation), an "
+                "independent union-find model of the symmetry classes, exact-arithmetic fixed points and a float64 evaluation of the "
+                "Kullback-Leibler distance, under ASan/UBSan/asserts and at -O2"),
+     level_text=("for thousands of generated scanners with and without virtual crystals (transaxial only, transaxial and axial), ring "
+                 "differences and fan sizes, projection data with a unique value per bin are converted to FanProjData / DetPairData: "
+                 "every entry must equal the value of the bin that ProjDataInfoCylindricalNoArcCorr assigns to the un-compressed "
+                 "detector pair (0 where there is none), every bin inside the fan with two physical detectors must be found at its "
+                 "pair, and the conversion back must restore every bin and put the requested value into every gap bin; "
+                 "apply_efficiencies, apply_geo_norm and apply_block_norm are compared entry by entry (4 ulp) with the product of the two "
+                 "detectors' factors, the factor of the pair's orbit under rotation by one unit / axial shift by one unit / both "
+                 "mirrors (computed by union-find, independent of STIR's index arithmetic) and the block pair's factor, and "
+                 "apply=false must restore the data; data generated exactly from a model (all numbers small integers times powers of "
+                 "two, so float32 arithmetic is exact and the comparison is bit-exact, plus a generic pass with a computed band) must "
+                 "leave efficiencies, geo and block factors unchanged by one iterate_* call and every non-zero entry's class must carry "
+                 "the true factor; on Poisson data the float64 Kullback-Leibler distance over all LORs (each once) must not increase "
+                 "over any iterate_efficiencies sweep (band from the float32 rounding of one coordinate update), STIR's own KL value "
+                 "likewise wherever it is proportional to that sum (2-D data, max ring difference 0); the driver "
+                 "ML_estimate_component_based_normalisation must run all its outer iterations, write parseable efficiencies of the "
+                 "physical dimensions and report non-increasing KL values over its efficiency sweeps (2-D data).  Detection validated "
+                 "on planted mutations (see the builder report)"),
+     level_note=("trusted: the 150-line union-find orbit model and the float64 KL in harness/c20_mlnorm.cxx, and C01's subject "
+                 "get_bin_for_det_pos_pair / get_det_pair_for_bin as the geometry's pair<->bin map.  STIR's KL(FanProjData) counts "
+                 "in-plane LORs twice and oblique LORs once, so it is not proportional to the KL distance when oblique segments are "
+                 "present and does increase over some efficiency sweeps (counted as observed_stir_KL_increase_with_oblique_segments, "
+                 "not a violation: the statement speaks about the KL distance, which does descend).  Geometric factors need an even "
+                 "number of physical transaxial crystals per symmetry unit (asserted by the utilities) and block factors a fan that "
+                 "does not reach the detector's own block (BlockData3D has no such element); other configurations skip those "
+                 "components (counted).  BlocksOnCylindrical / generic scanners, TOF, view mashing and span > 1 (rejected by "
+                 "get_fan_info) are not exercised; the 2-D functions only on scanners without virtual crystals"),
+     assumptions=["virtual crystals are generated through the scanner types that hard-wire them (Siemens_mMR: 1 transaxial, E1080: 1 "
+                  "transaxial + 1 axial per block); other gap layouts cannot be expressed with stir::Scanner",
+                  "Poisson data have < 1e5 counts per LOR so that the driver's KL threshold (max/1e5) only selects empty LORs",
+                  "efficiencies / factors are drawn from [0.5, 2] ([0.3, 3] for starting values); data generated from a model are "
+                  "strictly positive on every LOR that has a bin"],
      )
